@@ -28,6 +28,12 @@ TABLE = {
             "fills with indexes returned by Engine::index (gs_id and node have equal length)"),
     "serializer::engine::Engine::<'a, L>::into_json::{closure#0}::{closure#0}#index:Vec:param2.f0:":
         (1, "gs_id[*iparent]: iparent is the node index stored in unique_parent by process_quads (produced by Engine::index)"),
+    "serializer::engine::Engine::<'a, L>::into_json#index:Vec:proj-of-call:std::collections::HashMap::<K, V, S, A>::get":
+        (1, "gs_id[*iparent] in the anchoring pass: iparent is a value of list_node, i.e. a node index mark_list_node copied from "
+            "unique_parent (produced by Engine::index)"),
+    "serializer::engine::Engine::<'a, L>::into_json::{closure}#index:HashMap:param2":
+        (1, "anchored[label] in list_node.retain: the anchoring loop inserts every key of list_node into `anchored` (each key either is "
+            "already known or is pushed on `path`, and every label on `path` is inserted when its walk ends)"),
     "serializer::engine::Engine::<'a, L>::jsonify#index:Vec:param2":
         (1, "inode is an index of self.node (enumerate() or an RdfObject::Node payload, both produced by Engine::index); gs_id and node have equal length"),
     "serializer::engine::Engine::<'a, L>::jsonify::{closure}#index:Vec:param2":
@@ -624,8 +630,50 @@ def compound_literal_rule(ck, facts):
                "another graph, or several nodes refer to it, its quads are lost" % (shape, parent), cf.loc)
 
 
+def anchored_lists_rule(ck, facts):
+    """R12.13: a marked list node is left out of the node objects because the node object of its parent renders the list; in mode 1.1 the
+    parent may itself be a list node (a list inside a list), so marks can form a cycle (`_:l rdf:first _:l`) that nothing renders.
+    After the marking loop and before anything is rendered, into_json must therefore filter `list_node` (retain / remove)."""
+    fns = facts.find_fns(crate="sophia_jsonld", name_re=r"Engine::<'a, L>::into_json$")
+    if len(fns) != 1:
+        ck.bad("R12.13", "R12.13@into_json#anchor", "anchor-missing (%d)" % len(fns))
+        return
+    fn = fns[0]
+    marks = [bi for bi, t in fn.calls() if call_name_matches(t, r"Engine::<'a, L>::mark_list_node$")]
+    renders = [bi for bi, t in fn.calls() if call_name_matches(t, r"Engine::<'a, L>::(jsonify|make_node_object)$")]
+    for u in facts.with_closures(fn)[1:]:
+        if any(call_name_matches(t, r"Engine::<'a, L>::(jsonify|make_node_object)$") for _, t in u.calls()):
+            # rendered from a closure: the block that builds the closure stands for it
+            renders += [bi for bi, b in enumerate(fn.blocks) for st in b["s"] if st[0] == "=" and st[2][0] == "agg" and st[2][1].get("def") == u.id]
+    if not marks or not renders:
+        ck.bad("R12.13", "R12.13@into_json#anchor", "anchor-missing: marking loop (%d) / rendering calls (%d)" % (len(marks), len(renders)), fn.loc)
+        return
+    filt = []
+    for bi, t in fn.calls():
+        if call_name_matches(t, r"HashMap::<K, V, S, A>::(retain|remove|clear)$|HashMap::<K, V, S>::(retain|remove|clear)$") and t["args"] \
+                and ":list_node" in str(fn.origin(t["args"][0])) + str(t["args"][0]):
+            filt.append(bi)
+    for b_i, b in enumerate(fn.blocks):
+        for st in b["s"]:
+            if st[0] == "=" and st[2][0] == "ref" and ":list_node" in str(st[2][2]) and "mut" in str(st[2][1]).lower():
+                # &mut self.list_node handed to retain through a temporary
+                for bi, t in fn.calls():
+                    if call_name_matches(t, r"::(retain|remove|clear)$") and t["args"] and t["args"][0][0] != "k" and t["args"][0][1][0] == st[1][0]:
+                        filt.append(bi)
+    good = [f for f in set(filt) if any(f in fn.reachable(fn.blocks[m]["t"]["to"]) for m in marks if fn.blocks[m]["t"].get("to") is not None)
+            and all(fn.dominates(f, r) for r in renders)]
+    if good:
+        ck.ok("R12.13", "into_json filters list_node after the marking loop and before anything is rendered (list nodes that no node object "
+                        "would render are unmarked)")
+    else:
+        ck.bad("R12.13", "R12.13@into_json#unanchored-lists", "into_json renders with the marks of mark_list_node as they are: in mode 1.1 a list that "
+               "contains itself (`_:l rdf:first _:l ; rdf:rest rdf:nil`, or two lists containing each other) has every node marked, every "
+               "node left out of the node objects and no @list anywhere: 2 quads in, `[]` out, no error", fn.loc)
+
+
 def run(ck, facts, tier):
     facts.require_crates(["sophia_jsonld"])
+    anchored_lists_rule(ck, facts)
     singleton_rule(ck, facts)
     native_types_rule(ck, facts)
     list_suppression_rule(ck, facts)
